@@ -16,10 +16,19 @@
 //!    arguments left to right.  We follow the implementation: callee (for `obj.m(args)`: `obj`),
 //!    then arguments left to right.
 //!  * `==` / `!=` on values that are not int / bool / unit / Str: the spec (6.9) promises
-//!    structural equality, the implementation compares references.  The result is
-//!    representation dependent, so the run ends with `Ending::Harness("== on non-primitive")`
-//!    (inconclusive).  `Vec.eq` compares elements by value for int/bool/unit/Str and by object
-//!    identity (`Rc::ptr_eq`) otherwise, as documented in spec 5.12.
+//!    structural equality, the implementation compares references, so the result is
+//!    representation dependent.  The plan was to end such runs with
+//!    `Ending::Harness("== on non-primitive")`, but std.map (hence tests.AllTests and its
+//!    snapshot) uses `==` on tree nodes as a physical-equality shortcut.  Therefore the default
+//!    ([`Options::object_identity_eq`] = true) is REFERENCE IDENTITY: `Rc::ptr_eq` for class
+//!    instances, function values and Vec; two payload-free variants of the same enum class are
+//!    equal iff they are the same variant (they have no identity; structural equality and every
+//!    representation agree).  Every such comparison is counted in `RefStats::object_eq`, and in
+//!    `RefStats::ambiguous_object_eq` when identity answered "different" for two values that
+//!    could be structurally equal (the only case where spec and implementation can disagree).
+//!    With `object_identity_eq = false` the run ends with `Harness("== on non-primitive")`.
+//!    `Vec.eq` compares elements the same way (value for int/bool/unit/Str, identity otherwise,
+//!    spec 5.12).
 //!  * integer overflow and division by zero are implementation defined: we compute with wrapping
 //!    i32 arithmetic and raise `ub.overflow`; `/` and `%` by zero (and INT_MIN / -1, INT_MIN % -1)
 //!    raise `ub.div_zero` and END the run with `Ending::ArithTrap("div by zero")`.
@@ -31,6 +40,14 @@
 //!    known to disagree on those.
 //!  * literal patterns (spec 8.3) do not exist in the AST (the parser has no such production), so
 //!    there is nothing to interpret.
+//!  * shadowing (spec 6.13.1 `let x = 1; let x = x + 1;`) and struct patterns that omit fields
+//!    (spec 8.5) are implemented as the spec says (newest binding wins / omitted fields are
+//!    ignored), but the real type checker rejects both ("Name `x` collides with a previously
+//!    defined name", "The pattern does not bind all fields"), so checked programs never contain
+//!    them.
+//!  * `Vec.withCapacity(n)` / `reserve(n)` with n <= 0: "at least n elements" is trivially
+//!    satisfied, so they succeed (no flag); `capacity()` answers max(requested, length) and
+//!    raises `ub.capacity_observed`.
 //!
 //! Stack depth / tail calls.  The implementation rewrites *self tail calls* into loops, so deep
 //! self tail recursion never exhausts the stack of compiled code.  The interpreter models that
@@ -47,7 +64,14 @@
 //! stack actually used at every call: if less than 1/16 of the stack remains the run also ends
 //! with `StackExhausted` instead of crashing the process.  Values are dropped iteratively (custom
 //! `Drop`), so million-element linked structures cannot overflow the stack when released.
+//! When a run ends with `StackExhausted`, `RefStats::exhausted_frames` names the innermost frames.
 //! Any internal invariant failure (including a host panic) becomes `Ending::Harness`.
+//!
+//! Threading note: values are `Rc` based and not `Send`; they are moved to and from the
+//! interpreter thread inside `AssertSend`, which is sound because the calling thread is blocked in
+//! `join` for the whole life of the interpreter thread.  Function values returned by
+//! `run_function` are opaque and cannot be fed back in (`run_function` accepts only
+//! unit/int/bool/Str arguments).
 
 use crate::trace::{Ending, Limits, Trace, UbFlags};
 use samlang_ast::source::{
@@ -98,6 +122,9 @@ pub struct RefStats {
   pub ambiguous_object_eq: u64,
   /// largest host stack use observed (bytes)
   pub host_stack_bytes: usize,
+  /// diagnostics for `Ending::StackExhausted`: the innermost frames (innermost last), as
+  /// `Class.member` or `<lambda>`; empty otherwise
+  pub exhausted_frames: Vec<String>,
 }
 
 impl RefStats {
@@ -607,16 +634,22 @@ impl<'a> Program<'a> {
 // interpreter
 // ------------------------------------------------------------------------------------------------
 
+/// non-local exits; kept pointer-sized so that `R<Value>` stays small on the hot path
 enum Ctl {
-  End(Ending),
-  /// self tail call: rebind the parameters of the running function and re-enter its body
-  TailCall { this: Option<Value>, args: Vec<Value> },
+  End(Box<Ending>),
+  /// self tail call: rebind the parameters of the running function and re-enter its body; the
+  /// new receiver and arguments are parked in `Interp::pending_tail`
+  TailCall,
+}
+
+fn end<V>(e: Ending) -> R<V> {
+  Err(Ctl::End(Box::new(e)))
 }
 
 type R<V> = Result<V, Ctl>;
 
 fn harness<V>(msg: impl Into<String>) -> R<V> {
-  Err(Ctl::End(Ending::Harness(msg.into())))
+  end(Ending::Harness(msg.into()))
 }
 
 type Env = Vec<(PStr, Value)>;
@@ -632,6 +665,9 @@ struct Interp<'a, 'p> {
   literal_cache: FastMap<PStr, Rc<str>>,
   /// call site (address of the MethodAccess node) -> resolved static member
   static_site_cache: FastMap<usize, Callable>,
+  pending_tail: Option<(Option<Value>, Vec<Value>)>,
+  /// fn ids of the active calls (usize::MAX = lambda), for diagnostics only
+  frames: Vec<usize>,
   object_identity_eq: bool,
   stack_base: usize,
   stack_budget: usize,
@@ -655,29 +691,45 @@ impl<'a, 'p> Interp<'a, 'p> {
 
   // ---- calls -----------------------------------------------------------------------------------
 
-  fn enter(&mut self) -> R<()> {
-    self.depth += 1;
-    if self.depth > self.stats.max_depth {
-      self.stats.max_depth = self.depth;
-    }
-    if self.depth > self.limits.max_depth {
-      return Err(Ctl::End(Ending::StackExhausted));
-    }
+  /// account for one more active call (`frame`: fn id, or usize::MAX for a lambda).  On error
+  /// nothing is left to undo.
+  fn enter(&mut self, frame: usize) -> R<()> {
     let used = self.stack_base.saturating_sub(stack_pointer_estimate());
     if used > self.stats.host_stack_bytes {
       self.stats.host_stack_bytes = used;
     }
-    if used > self.stack_budget {
-      return Err(Ctl::End(Ending::StackExhausted));
+    if self.depth + 1 > self.limits.max_depth || used > self.stack_budget {
+      let mut names: Vec<String> = self
+        .frames
+        .iter()
+        .rev()
+        .take(11)
+        .map(|f| if *f == usize::MAX { "<lambda>".to_string() } else { self.fn_label(*f) })
+        .collect();
+      names.reverse();
+      names.push(if frame == usize::MAX { "<lambda>".to_string() } else { self.fn_label(frame) });
+      self.stats.exhausted_frames = names;
+      self.stats.max_depth = self.stats.max_depth.max(self.depth + 1);
+      return end(Ending::StackExhausted);
+    }
+    self.depth += 1;
+    self.frames.push(frame);
+    if self.depth > self.stats.max_depth {
+      self.stats.max_depth = self.depth;
     }
     Ok(())
+  }
+
+  fn leave(&mut self) {
+    self.depth -= 1;
+    self.frames.pop();
   }
 
   #[inline(never)]
   fn call_fn(&mut self, id: usize, mut this: Option<Value>, mut args: Vec<Value>) -> R<Value> {
     let prog = self.prog;
     let f = &prog.fns[id];
-    self.enter()?;
+    self.enter(id)?;
     let mut env: Env = Vec::with_capacity(args.len() + 6);
     let result = loop {
       self.stats.calls += 1;
@@ -702,15 +754,20 @@ impl<'a, 'p> Interp<'a, 'p> {
         env.push((*p, a));
       }
       match self.eval(f.body, &mut env, Some(id)) {
-        Err(Ctl::TailCall { this: t, args: a }) => {
+        Err(Ctl::TailCall) => {
           self.stats.tail_calls += 1;
-          this = t;
-          args = a;
+          match self.pending_tail.take() {
+            Some((t, a)) => {
+              this = t;
+              args = a;
+            }
+            None => break harness("tail call without pending arguments"),
+          }
         }
         other => break other,
       }
     };
-    self.depth -= 1;
+    self.leave();
     result
   }
 
@@ -726,7 +783,8 @@ impl<'a, 'p> Interp<'a, 'p> {
       Callable::Fn(id) => {
         if tail == Some(id) {
           // self tail call: handled by the loop in call_fn of the running activation
-          return Err(Ctl::TailCall { this: recv, args });
+          self.pending_tail = Some((recv, args));
+          return Err(Ctl::TailCall);
         }
         self.call_fn(id, recv, args)
       }
@@ -786,16 +844,16 @@ impl<'a, 'p> Interp<'a, 'p> {
             args.len()
           ));
         }
-        self.enter()?;
+        self.enter(usize::MAX)?;
         let mut new_env: Env = Vec::with_capacity(env.len() + args.len() + 4);
         new_env.extend(env.iter().cloned());
         for (p, a) in params.iter().zip(args) {
           new_env.push((p.name.name, a));
         }
         let r = self.eval(&lam.body, &mut new_env, None);
-        self.depth -= 1;
+        self.leave();
         match r {
-          Err(Ctl::TailCall { .. }) => harness("tail call escaped a lambda body"),
+          Err(Ctl::TailCall) => harness("tail call escaped a lambda body"),
           other => other,
         }
       }
@@ -917,7 +975,7 @@ impl<'a, 'p> Interp<'a, 'p> {
 
   fn println(&mut self, s: &str) -> R<()> {
     if self.lines.len() >= self.limits.max_lines {
-      return Err(Ctl::End(Ending::StepLimit));
+      return end(Ending::StepLimit);
     }
     self.lines.push(s.to_string());
     Ok(())
@@ -956,7 +1014,7 @@ impl<'a, 'p> Interp<'a, 'p> {
       Builtin::Panic => {
         arity(b, &args, 1)?;
         let s = str_arg(b, &args[0])?;
-        Err(Ctl::End(Ending::Panic(s.to_string())))
+        end(Ending::Panic(s.to_string()))
       }
       Builtin::FromInt => {
         arity(b, &args, 1)?;
@@ -1036,7 +1094,7 @@ impl<'a, 'p> Interp<'a, 'p> {
         let popped = v.borrow_mut().items.pop();
         match popped {
           Some(x) => Ok(x),
-          None => Err(Ctl::End(Ending::VecBounds)),
+          None => end(Ending::VecBounds),
         }
       }
       Builtin::VecGet => {
@@ -1045,7 +1103,7 @@ impl<'a, 'p> Interp<'a, 'p> {
         let i = int_arg(b, &args[0])?;
         let v = v.borrow();
         if i < 0 || i as usize >= v.items.len() {
-          return Err(Ctl::End(Ending::VecBounds));
+          return end(Ending::VecBounds);
         }
         Ok(v.items[i as usize].clone())
       }
@@ -1056,7 +1114,7 @@ impl<'a, 'p> Interp<'a, 'p> {
         let x = args.pop().unwrap();
         let mut v = v.borrow_mut();
         if i < 0 || i as usize >= v.items.len() {
-          return Err(Ctl::End(Ending::VecBounds));
+          return end(Ending::VecBounds);
         }
         v.items[i as usize] = x;
         Ok(Value::Unit)
@@ -1225,7 +1283,7 @@ impl<'a, 'p> Interp<'a, 'p> {
   fn eval(&mut self, e: &'a E, env: &mut Env, tail: Option<usize>) -> R<Value> {
     self.stats.steps += 1;
     if self.stats.steps > self.limits.max_steps {
-      return Err(Ctl::End(Ending::StepLimit));
+      return end(Ending::StepLimit);
     }
     match e {
       E::Literal(_, Literal::Int(i)) => Ok(Value::Int(*i)),
@@ -1416,7 +1474,7 @@ impl<'a, 'p> Interp<'a, 'p> {
 
   fn arith_trap<V>(&mut self) -> R<V> {
     self.ub.div_zero = true;
-    Err(Ctl::End(Ending::ArithTrap("div by zero".to_string())))
+    end(Ending::ArithTrap("div by zero".to_string()))
   }
 
   #[inline(never)]
@@ -1443,13 +1501,62 @@ impl<'a, 'p> Interp<'a, 'p> {
     }
     let l = self.eval(&b.e1, env, None)?;
     let r = self.eval(&b.e2, env, None)?;
-    match b.operator {
+    match (l, r) {
+      (Value::Int(x), Value::Int(y)) => Ok(match b.operator {
+        Op::PLUS => {
+          let (v, o) = x.overflowing_add(y);
+          self.ub.overflow |= o;
+          Value::Int(v)
+        }
+        Op::MINUS => {
+          let (v, o) = x.overflowing_sub(y);
+          self.ub.overflow |= o;
+          Value::Int(v)
+        }
+        Op::MUL => {
+          let (v, o) = x.overflowing_mul(y);
+          self.ub.overflow |= o;
+          Value::Int(v)
+        }
+        Op::DIV => {
+          if y == 0 || (x == i32::MIN && y == -1) {
+            return self.arith_trap();
+          }
+          // truncates toward zero
+          Value::Int(x.wrapping_div(y))
+        }
+        Op::MOD => {
+          if y == 0 || (x == i32::MIN && y == -1) {
+            return self.arith_trap();
+          }
+          // sign of the dividend
+          Value::Int(x.wrapping_rem(y))
+        }
+        Op::LT => Value::Bool(x < y),
+        Op::LE => Value::Bool(x <= y),
+        Op::GT => Value::Bool(x > y),
+        Op::GE => Value::Bool(x >= y),
+        Op::EQ => Value::Bool(x == y),
+        Op::NE => Value::Bool(x != y),
+        Op::AND | Op::OR | Op::CONCAT => {
+          return self.binary_general(b.operator, Value::Int(x), Value::Int(y));
+        }
+      }),
+      (l, r) => self.binary_general(b.operator, l, r),
+    }
+  }
+
+  /// `==`, `!=`, `::` and the error cases (operands are not both int)
+  #[inline(never)]
+  fn binary_general(&mut self, op: expr::BinaryOperator, l: Value, r: Value) -> R<Value> {
+    use expr::BinaryOperator as Op;
+    match op {
       Op::EQ | Op::NE => {
         let eq = match l.primitive_eq(&r) {
           Some(eq) => eq,
           None => {
             if !self.object_identity_eq {
-              return Err(Ctl::End(Ending::Harness("== on non-primitive".to_string())));
+              return end(Ending::Harness("== on non-primitive".to_string()));
             }
             let (same, ambiguous) = l.identity_eq(&r);
             self.stats.object_eq += 1;
@@ -1457,7 +1564,7 @@ impl<'a, 'p> Interp<'a, 'p> {
             same
           }
         };
-        Ok(Value::Bool(if b.operator == Op::EQ { eq } else { !eq }))
+        Ok(Value::Bool(if op == Op::EQ { eq } else { !eq }))
       }
       Op::CONCAT => match (&l, &r) {
         (Value::Str(a), Value::Str(c)) => {
@@ -1468,53 +1575,7 @@ impl<'a, 'p> Interp<'a, 'p> {
         }
         _ => harness(format!(":: applied to {} and {}", l.render(), r.render())),
       },
-      op => {
-        let (Value::Int(x), Value::Int(y)) = (&l, &r) else {
-          return harness(format!(
-            "{} applied to {} and {}",
-            op.kind_str(),
-            l.render(),
-            r.render()
-          ));
-        };
-        let (x, y) = (*x, *y);
-        Ok(match op {
-          Op::PLUS => {
-            let (v, o) = x.overflowing_add(y);
-            self.ub.overflow |= o;
-            Value::Int(v)
-          }
-          Op::MINUS => {
-            let (v, o) = x.overflowing_sub(y);
-            self.ub.overflow |= o;
-            Value::Int(v)
-          }
-          Op::MUL => {
-            let (v, o) = x.overflowing_mul(y);
-            self.ub.overflow |= o;
-            Value::Int(v)
-          }
-          Op::DIV => {
-            if y == 0 || (x == i32::MIN && y == -1) {
-              return self.arith_trap();
-            }
-            Value::Int(x.wrapping_div(y))
-          }
-          Op::MOD => {
-            if y == 0 || (x == i32::MIN && y == -1) {
-              return self.arith_trap();
-            }
-            Value::Int(x.wrapping_rem(y))
-          }
-          Op::LT => Value::Bool(x < y),
-          Op::LE => Value::Bool(x <= y),
-          Op::GT => Value::Bool(x > y),
-          Op::GE => Value::Bool(x >= y),
-          Op::EQ | Op::NE | Op::AND | Op::OR | Op::CONCAT => {
-            return harness("unreachable binary operator");
-          }
-        })
-      }
+      op => harness(format!("{} applied to {} and {}", op.kind_str(), l.render(), r.render())),
     }
   }
 
@@ -1565,7 +1626,7 @@ impl<'a, 'p> Interp<'a, 'p> {
       }
       env.truncate(mark);
     }
-    Err(Ctl::End(Ending::NoArmMatched))
+    end(Ending::NoArmMatched)
   }
 
   #[inline(never)]
@@ -1580,7 +1641,7 @@ impl<'a, 'p> Interp<'a, 'p> {
           let m = env.len();
           if !self.match_pattern(&d.pattern, &v, env)? {
             env.truncate(m);
-            return Err(Ctl::End(Ending::NoArmMatched));
+            return end(Ending::NoArmMatched);
           }
         }
         expr::Statement::Expression(e) => {
@@ -1617,11 +1678,21 @@ enum Entry<'s> {
   Function { module: ModuleReference, class: &'s str, function: &'s str, args: Vec<Value> },
 }
 
-/// `==` / `!=` on class instances, functions and Vec.  The corpus (std.map, used by
-/// tests.AllTests) relies on it as a physical-equality shortcut, so it is implemented as reference
-/// identity (see `Value::identity_eq`) and counted in `RefStats::{object_eq, ambiguous_object_eq}`.
-/// With `false` such a comparison ends the run with `Ending::Harness("== on non-primitive")`.
-const OBJECT_IDENTITY_EQ: bool = true;
+#[derive(Clone, Copy, Debug)]
+pub struct Options {
+  /// `==` / `!=` on class instances, functions and Vec.  The corpus (std.map, used by
+  /// tests.AllTests) relies on it as a physical-equality shortcut, so by default it is
+  /// implemented as reference identity (see the module documentation) and counted in
+  /// `RefStats::{object_eq, ambiguous_object_eq}`.  With `false` such a comparison ends the run
+  /// with `Ending::Harness("== on non-primitive")`.
+  pub object_identity_eq: bool,
+}
+
+impl Default for Options {
+  fn default() -> Options {
+    Options { object_identity_eq: true }
+  }
+}
 
 const STACK_SIZES: [usize; 5] = [2 << 30, 1 << 30, 512 << 20, 256 << 20, 64 << 20];
 
@@ -1630,6 +1701,7 @@ fn run_entry(
   checked: &HashMap<ModuleReference, Module<T>>,
   entry: Entry<'_>,
   limits: &Limits,
+  options: Options,
 ) -> (Trace, Option<Value>, RefStats) {
   let limits = *limits;
   let mut payload = Some(AssertSend((heap, checked, entry)));
@@ -1642,7 +1714,7 @@ fn run_entry(
         std::thread::Builder::new().name("refint".to_string()).stack_size(stack_size);
       let spawned = builder.spawn_scoped(scope, move || {
         let (heap, checked, entry) = slot.take().expect("payload").into_inner();
-        AssertSend(interpret(heap, checked, entry, limits, stack_size))
+        AssertSend(interpret(heap, checked, entry, limits, options, stack_size))
       });
       match spawned {
         Ok(handle) => Ok(handle.join().map(|r| r.into_inner())),
@@ -1685,6 +1757,7 @@ fn interpret(
   checked: &HashMap<ModuleReference, Module<T>>,
   entry: Entry<'_>,
   limits: Limits,
+  options: Options,
   stack_size: usize,
 ) -> (Trace, Option<Value>, RefStats) {
   let prog = Program::build(heap, checked);
@@ -1698,7 +1771,9 @@ fn interpret(
     depth: 0,
     literal_cache: FastMap::default(),
     static_site_cache: FastMap::default(),
-    object_identity_eq: OBJECT_IDENTITY_EQ,
+    pending_tail: None,
+    frames: Vec::new(),
+    object_identity_eq: options.object_identity_eq,
     stack_base: stack_pointer_estimate(),
     stack_budget: stack_size - stack_size / 16,
   };
@@ -1733,8 +1808,8 @@ fn interpret(
   })();
   let (ending, value) = match outcome {
     Ok(v) => (Ending::Return, Some(v)),
-    Err(Ctl::End(e)) => (e, None),
-    Err(Ctl::TailCall { .. }) => (Ending::Harness("tail call escaped to top level".into()), None),
+    Err(Ctl::End(e)) => (*e, None),
+    Err(Ctl::TailCall) => (Ending::Harness("tail call escaped to top level".into()), None),
   };
   let stats = std::mem::take(&mut interp.stats);
   let lines = std::mem::take(&mut interp.lines);
@@ -1751,7 +1826,18 @@ pub fn run(
   entry_module: ModuleReference,
   limits: &Limits,
 ) -> (Trace, RefStats) {
-  let (t, _, s) = run_entry(heap, checked, Entry::Main(entry_module), limits);
+  run_with_options(heap, checked, entry_module, limits, Options::default())
+}
+
+/// `run` with explicit [`Options`]
+pub fn run_with_options(
+  heap: &Heap,
+  checked: &HashMap<ModuleReference, Module<Arc<Type>>>,
+  entry_module: ModuleReference,
+  limits: &Limits,
+  options: Options,
+) -> (Trace, RefStats) {
+  let (t, _, s) = run_entry(heap, checked, Entry::Main(entry_module), limits, options);
   (t, s)
 }
 
@@ -1766,5 +1852,11 @@ pub fn run_function(
   args: Vec<Value>,
   limits: &Limits,
 ) -> (Trace, Option<Value>, RefStats) {
-  run_entry(heap, checked, Entry::Function { module, class, function, args }, limits)
+  run_entry(
+    heap,
+    checked,
+    Entry::Function { module, class, function, args },
+    limits,
+    Options::default(),
+  )
 }
